@@ -62,7 +62,7 @@ def bounded(tier, seed):
     from unified_planning.engines.plan_validator import SequentialPlanValidator, TimeTriggeredPlanValidator
     from unified_planning.engines.results import ValidationResultStatus
     from unified_planning.plans import SequentialPlan, TimeTriggeredPlan, ActionInstance
-    nprob, maxlen, cap, nsched = (50, 2, 40, 2) if tier == "quick" else (400, 3, 150, 6)
+    nprob, maxlen, cap, nsched = (50, 2, 40, 2) if tier == "quick" else (400, 3, 100, 3)
     failures, evals, nontrivial, samples = [], 0, set(), []
     for s, pr in itertools.chain(crafted_half_bounded(), SC.problems(seed + 29, nprob, features={"max_actions": 2})):
         if not SequentialPlanValidator.supports(pr.kind) or not TimeTriggeredPlanValidator.supports(pr.kind):
